@@ -23,6 +23,52 @@ Fragment
                downgrades the tag: `warn tag`), `a.checked_mul(b).ok_or(..)?` (= return Err on
                overflow), `core::cmp::max(a, b)`, `self.policy.f` (a parameter of the translation),
                `.into()` from u8 to u64.
+               `policy_err!(self, tag, fmt, args..)`: the format arguments are evaluated before the filter is asked
+               (an operation that can panic there is kept as a bind; only integers, bools and strings may be
+               formatted).  Logging macros (debug!, trace!, info!, warn!) are dropped, their arguments are not
+               evaluated.
+
+Second generation (class GenR; Gen/CommitmentPolicyGen.v): functions over struct parameters, errors keep their tag
+  items      : methods `fn m(&self, x: T, ..) -> T` taken from the inherent `impl S { .. }` blocks of a file (exactly one
+               definition must be found); `pub struct S { .. }` -> a Gallina record `S` with projections `S_f` (fields
+               whose types are outside the fragment are left out: touching one is an error); a field-less
+               `pub enum E { A, B }` that derives PartialEq (and has no hand-written one) -> an inductive `E` with `E_eqb`;
+               `const NAME: T = <integer>;` of the files the names are imported from (the `use` lines of the file are
+               checked: every struct, constant and free function used must come from the expected module)
+  types      : the above and u16, `&T` (a shared borrow is read like the value), `&str` (Gallina string; only passed on,
+               formatted, or used as a policy tag), `Vec<S>` for a struct S, tuples `(T, U)`, S / E by name; any other
+               capitalised type is an opaque identity (N) that can only be passed around
+  result     : `Result<(), ValidationError>` is `trap (result unit)`: a panic, `ErrR tag` (of a ValidationError only the
+               policy tag is kept - policy/error.rs is checked for: policy_error(tag, ..) builds an error with that tag,
+               prepend_msg keeps the tag, policy_err! is `$obj.policy().policy_error($tag.into(), ..)?`), or `OkR tt`.
+               Statements are sequenced with bindR (`x <-? e ;; k`: the meaning of `e?`) and bindT (`x <- e ;; k`)
+  statements : `let [mut] x [: T] = e;`  `let (a, b) = e;`  `x = e;`  `e?;`
+               `let p = &self.policy;` (p then reads the policy record)
+               `if c { .. }` without else, whose block assigns nothing outside itself and leaves only by `?` /
+               policy_err! (no `return`): `_ <-? (if c then block else Val (OkR tt)) ;; rest`
+               `for x in &v { .. }` / `for x in v.iter() { .. }` over a Vec<S>, whose body assigns exactly one variable of
+               the enclosing block and may leave the function by `?` / policy_err!: fold_r (the first error ends the
+               loop and is the function's answer)
+               `policy_err!(self, tag, fmt, args..)` with a literal or `&str` tag: `_ <-? policy_err warn tag`
+               `let mut g = scoped_debug_return!(..);` and `*g = false;` (a guard that logs when the function is left
+               early) and the logging macros are dropped
+               the tail of a function: `Ok(())`, a value, a tuple, or `if c { .. } else { .. }` of such
+  expressions: the integer / boolean expressions of the first generation, and: `x.f` for a struct value, `self.policy.f`,
+               string literals without escapes, `&e`, `E::A`, `==` / `!=` on an enum, widening `as` casts (u16 -> u32 ..;
+               narrowing is an error), `v.len()` on a Vec<S>, `x.m(..)` for a translated `&self` method of the struct of
+               x, `f(..)` for a free function translated into another generated file (its signature is read from the
+               source in the same run), `(a, b)`, `if c { a } else { b }` as a value (no `?` inside),
+               `a.checked_add(b).ok_or_else(|| policy_error(tag, msg))?` (also checked_sub, checked_mul; chains of them;
+               msg is a literal, `"..".to_string()` or `format!(..)` with arguments that cannot panic): `x <-? ok_or
+               (add_checked a b) tag` - the error is built without asking the filter,
+               `self.m(..)?` for a translated Result method of the validator, optionally with
+               `.map_err(|e| e.prepend_msg(msg))` in front of the `?` (the tag is kept),
+               calls listed by the caller of the translator as *opaque* (here: LDK's `htlc_timeout_tx_weight(&setup.features())`
+               and `htlc_success_tx_weight(&setup.features())`, where `setup` must be the unshadowed parameter): their
+               answers are parameters of the generated function
+  refused    : a Rust binder whose name the generated text uses itself (prof, warn, policy, Val, t<digits>, gen_.., ..), a
+               `let` that shadows a variable in scope, `return`, `else`
+               branches of statements, `match`, `&mut`, closures anywhere else, struct literals, everything not listed.
 Meaning of each construct: coq/theories/Base/Rust.v.  usize is u64 (64-bit target)."""
 import os, re, sys
 
@@ -60,7 +106,7 @@ def lex(src):
 
 # ---------------------------------------------------------------- source extraction
 
-def struct_fields(src, name, skip_unknown=False):
+def struct_fields(src, name, skip_unknown=False, known=None):
     """fields of the struct with their fragment types; with skip_unknown, fields of types outside the
     fragment are left out (a method that touches one is then an error)"""
     m = re.search(r"\n(?:pub )?struct %s\s*\{(.*?)\n\}" % re.escape(name), src, re.S)
@@ -89,17 +135,26 @@ def struct_fields(src, name, skip_unknown=False):
         if not fm:
             raise GenError("cannot read field declaration %r of %s" % (part, name))
         try:
-            fields.append((fm.group(1), norm_type(fm.group(2).strip())))
+            fields.append((fm.group(1), norm_type(fm.group(2).strip(), known)))
         except GenError:
             if not skip_unknown:
                 raise
     return fields
 
 
-def norm_type(t):
+def norm_type(t, known=None):
+    """known: names of structs / enums declared to the translator (name -> fragment type)"""
     t = re.sub(r"\s+", "", t)
     if t in ("u64", "u32", "usize", "bool", "u8", "u128"):
         return t
+    if known is not None:
+        if t in ("u16", "str"):
+            return t
+        if t in known:
+            return known[t]
+        m = re.match(r"^Vec<([A-Z][A-Za-z0-9]*)>$", t)
+        if m and known.get(m.group(1), "").startswith("struct:"):
+            return "vec:" + m.group(1)
     if t == "Vec<u64>":
         return "vec"
     if t == "Option<u64>":
@@ -159,8 +214,9 @@ def free_fn_source(src, name):
 # ---------------------------------------------------------------- parser (to a small AST)
 
 class P:
-    def __init__(self, toks):
+    def __init__(self, toks, known=None):
         self.t, self.i = toks, 0
+        self.known = known            # struct / enum names (second-generation translations only)
 
     def peek(self, k=0):
         return self.t[self.i + k] if self.i + k < len(self.t) else ("eof", "")
@@ -211,6 +267,22 @@ class P:
         return dict(name=name, params=params, selfmode=selfmode or "free", ret=ret, body=body)
 
     def type(self):
+        if self.known is not None and self.at("&"):
+            self.eat("&")                     # a shared borrow is read like the value it borrows
+            if self.at("mut"):
+                raise GenError("a `&mut` parameter is outside the fragment")
+            return self.type()
+        if self.known is not None and self.at("("):
+            self.eat("(")
+            parts = []
+            while not self.at(")"):
+                parts.append(self.type())
+                if self.at(","):
+                    self.eat(",")
+            self.eat(")")
+            if len(parts) < 2:
+                raise GenError("a tuple type with fewer than two components is outside the fragment")
+            return "tuple:" + ",".join(parts)
         v = self.eat(kind="id")
         if self.at("<"):
             self.eat("<")
@@ -226,7 +298,7 @@ class P:
                         break
                 inner += t
             v = "%s<%s>" % (v, inner)
-        return norm_type(v)
+        return norm_type(v, self.known)
 
     def block(self):
         """-> (stmts, tail expr or None)"""
@@ -246,7 +318,17 @@ class P:
                 self.eat("let")
                 if self.at("mut"):
                     self.eat("mut")
-                x = self.eat(kind="id")
+                if self.at("("):              # let (a, b) = e;
+                    self.eat("(")
+                    names = []
+                    while not self.at(")"):
+                        names.append(self.eat(kind="id"))
+                        if self.at(","):
+                            self.eat(",")
+                    self.eat(")")
+                    x = ("tuple_pat", names)
+                else:
+                    x = self.eat(kind="id")
                 ty = None
                 if self.at(":"):
                     self.eat(":")
@@ -391,6 +473,11 @@ class P:
         if self.at("*"):
             self.eat("*")
             return ("deref", self.unary())
+        if self.at("&"):
+            self.eat("&")
+            if self.at("mut"):
+                raise GenError("a `&mut` borrow is outside the fragment")
+            return ("ref", self.unary())
         return self.postfix()
 
     def postfix(self):
@@ -439,8 +526,32 @@ class P:
                 self.eat(")")
                 return ("unit",)
             e = self.expr()
+            if self.at(","):
+                parts = [e]
+                while self.at(","):
+                    self.eat(",")
+                    if self.at(")"):
+                        break
+                    parts.append(self.expr())
+                self.eat(")")
+                return ("tuple", parts)
             self.eat(")")
             return e
+        if v == "||" and k == "op":             # closure without parameters
+            self.eat("||")
+            return ("closure", [], self.expr())
+        if v == "|" and k == "op":              # closure |x, ..| body
+            self.eat("|")
+            names = []
+            while not self.at("|"):
+                names.append(self.eat(kind="id"))
+                if self.at(","):
+                    self.eat(",")
+            self.eat("|")
+            return ("closure", names, self.expr())
+        if v == "{" and k == "op":              # a block as an expression
+            ss, tail = self.block()
+            return ("block", ss, tail)
         if v in ("true", "false"):
             self.eat()
             return ("bool", v)
@@ -451,7 +562,8 @@ class P:
             while self.at("::"):          # a path: its last segment, qualified by an integer type if there is one
                 self.eat("::")
                 nxt = self.eat(kind="id")
-                v = "%s::%s" % (v, nxt) if v in ("u32", "u64", "usize", "u128") else nxt
+                v = "%s::%s" % (v, nxt) if v in ("u32", "u64", "usize", "u128") \
+                    or (self.known is not None and self.known.get(v, "").startswith("enum:")) else nxt
             if self.at("!"):              # macro invocation: (receiver, "tag", format arguments ...)
                 self.eat("!")
                 self.eat("(")
@@ -718,6 +830,30 @@ class Gen:
                 k = "%s <- %s ;;\n%s" % (name, code, k)
         return k
 
+    PRINTABLE = ("u8", "u16", "u32", "u64", "usize", "u128", "bool", "str")
+
+    def fmt_arg_binds(self, arglists, env):
+        """arguments of a formatting macro: (format string, expressions ...) as token lists -> the binds their
+        evaluation needs (in order).  Formatting an integer, a bool or a string cannot panic; anything else is
+        outside the fragment.  Identifiers captured inside the format string are variable reads."""
+        if not arglists or len(arglists[0]) != 1 or arglists[0][0][0] != "str":
+            raise GenError("a formatting macro without a literal format string is outside the fragment")
+        binds = []
+        for toks in arglists[1:]:
+            if not toks:
+                continue                     # trailing comma
+            pp = P(list(toks) + [("eof", "")], getattr(self, "known", None))
+            ex = pp.expr()
+            if pp.peek()[0] != "eof":
+                raise GenError("format argument %r is outside the fragment" % (toks,))
+            if ex[0] == "macro" and ex[1] in ("containing_function", "short_function") and ex[2] == [[]]:
+                continue                     # the name of the enclosing function: a constant string
+            b, c, t = self.expr(ex, env)
+            if t not in self.PRINTABLE:
+                raise GenError("format argument of type %s is outside the fragment" % t)
+            binds += b
+        return binds
+
     def leave(self, code):
         return "Val (self, %s)" % code if self.cur["selfmode"] == "mut" else "Val %s" % code
 
@@ -837,10 +973,16 @@ class Gen:
             if name == "policy_err" and len(args) >= 2 and args[0] == [("id", "self")] and len(args[1]) == 1 and args[1][0][0] == "str":
                 if self.cur["ret"] != "result_unit":
                     raise GenError("policy_err! in a function that does not return Result<(), _>")
-                # policy_error(tag, ..)? : Err unless the policy filter downgrades the tag to a warning
-                return "if warn %s%%string\nthen (%s)\nelse %s" % (args[1][0][1], self.stmts(rest, env, k), self.leave("false"))
+                # the message is formatted first (its arguments are evaluated: an operation that can panic there is
+                # kept), then policy_error(tag, ..)? : Err unless the policy filter downgrades the tag to a warning
+                fb = self.fmt_arg_binds(args[2:], env)
+                return self.emit_binds(fb, "if warn %s%%string\nthen (%s)\nelse %s" % (args[1][0][1], self.stmts(rest, env, k), self.leave("false")))
             raise GenError("macro %s! is outside the fragment" % name)
         if s[0] == "let":
+            if not isinstance(s[1], str):
+                raise GenError("a tuple pattern in `let` is outside the fragment")
+            if re.match(r"^t\d+$", s[1]) or any(s[1] in c_ for c_ in getattr(self, "carried_stack", [])):
+                raise GenError("`let %s` would capture a name of the generated text or rebind a loop-carried variable" % s[1])
             b, c, t = self.expr(s[3], env, s[2])
             if s[2] and s[2] != t:
                 raise GenError("let %s: declared %s, expression has %s" % (s[1], s[2], t))
@@ -905,13 +1047,27 @@ class Gen:
             tup = carried[0] if len(carried) == 1 else "(" + ", ".join(carried) + ")"
             pat = carried[0] if len(carried) == 1 else "'(" + ", ".join(carried) + ")"
             env_b = dict(env)
+            return self.loop_stmt(s, rest, env, k, body, carried, tup, pat, env_b)
+        raise GenError("statement %r is outside the fragment" % (s,))
+
+    def loop_body(self, body, env_b, carried, tup):
+        """the body of a loop; inside it a `let` must not rebind a loop-carried variable (the loop hands on the
+        variable of that name at the end of the body)"""
+        self.carried_stack = getattr(self, "carried_stack", []) + [carried]
+        try:
+            return self.stmts(body, env_b, lambda e2: "Val %s" % tup)
+        finally:
+            self.carried_stack = self.carried_stack[:-1]
+
+    def loop_stmt(self, s, rest, env, k, body, carried, tup, pat, env_b):
+        if True:
             if s[0] == "for_range":
                 if s[2] != ("lit", 0, None):
                     raise GenError("a range that does not start at 0 is outside the fragment")
                 b, n, tn = self.expr(s[3], env, "usize")
                 if s[1] != "_":
                     raise GenError("a loop variable over a range is outside the fragment")
-                inner = self.stmts(body, env_b, lambda e2: "Val %s" % tup)
+                inner = self.loop_body(body, env_b, carried, tup)
                 loop = "iter_p (N.to_nat %s) (fun %s =>\n%s) %s" % (n, pat if len(carried) == 1 else "st => let " + pat + " := st in", inner, tup) \
                     if len(carried) == 1 else \
                     "iter_p (N.to_nat %s) (fun st => let %s := st in\n%s) %s" % (n, pat, inner, tup)
@@ -924,7 +1080,7 @@ class Gen:
                 if tv != "vec":
                     raise GenError("iter over a non-vector")
                 env_b[s[1]] = "u64"
-                inner = self.stmts(body, env_b, lambda e2: "Val %s" % tup)
+                inner = self.loop_body(body, env_b, carried, tup)
                 if len(carried) == 1:
                     loop = "fold_p (fun %s %s =>\n%s) %s %s" % (carried[0], s[1], inner, v, tup)
                 else:
@@ -1131,6 +1287,646 @@ def generate_monitor(repo):
     return {"translated": ["monitor::State::" + n for n in names], "fields": [f for f, _ in fields], "constants": {k: g.consts[k][1] for k in used}}
 
 
+
+# ---------------------------------------------------------------- second generation: records, tagged results
+
+WIDTH = {"u8": 8, "u16": 16, "u32": 32, "u64": 64, "usize": 64, "u128": 128}
+
+# names the generated text uses itself: a Rust binder with one of these names would change its meaning
+RESERVED = set("""prof warn policy self fun let in match with end if then else as return forall exists fix cofix
+    Val Trap OkR ErrR tt true false Some None negb bindT bindR policy_err ok_or fold_r fold_p iter_p len_of
+    add_p sub_p mul_p div_p rem_p add32_p sub32_p add128_p mul128_p add_checked sub_checked mul_checked sat_add
+    vec_len vec_get vec_set vec_resize vec_insert U64MAX U32MAX N nat bool unit list option string prod fst snd
+    Debug Release profile trap result Type Prop Set""".split())
+
+
+def blank(src):
+    """the source with string literals and comments overwritten by spaces (same length): brace matching on it is
+    not disturbed by braces inside format strings"""
+    def rep(m):
+        return re.sub(r"[^\n]", " ", m.group(0))
+    return re.sub(r'"(?:[^"\\]|\\.)*"|//[^\n]*|/\*.*?\*/', rep, src, flags=re.S)
+
+
+def match_brace(bl, i):
+    depth, j = 0, i
+    while True:
+        if bl[j] == "{":
+            depth += 1
+        elif bl[j] == "}":
+            depth -= 1
+            if depth == 0:
+                return j
+        j += 1
+
+
+def method_source(src, impl, name):
+    """text of `fn name(..) { .. }` inside the inherent `impl <impl> { .. }` blocks of a file: exactly one"""
+    bl = blank(src)
+    found = []
+    for im in re.finditer(r"\nimpl %s\s*\{" % re.escape(impl), bl):
+        lo = im.end() - 1
+        hi = match_brace(bl, lo)
+        for m in re.finditer(r"\n\s*(?:pub(?:\([a-z]+\))?\s+)?fn %s\s*\(" % re.escape(name), bl[lo:hi]):
+            start = lo + m.start()
+            b = bl.index("{", start)
+            found.append(src[start:match_brace(bl, b) + 1])
+    if len(found) != 1:
+        raise GenError("fn %s: %d definitions in `impl %s`" % (name, len(found), impl))
+    return found[0]
+
+
+def enum_variants(src, name):
+    """variants of a field-less enum whose `==` is the derived one"""
+    m = re.search(r"((?:\n#\[[^\n]*\])*)\npub enum %s\s*\{(.*?)\n\}" % re.escape(name), src, re.S)
+    if not m:
+        raise GenError("enum %s not found" % name)
+    if not re.search(r"#\[derive\([^)]*\bPartialEq\b[^)]*\)\]", m.group(1)):
+        raise GenError("enum %s does not derive PartialEq: the meaning of `==` on it is not known" % name)
+    if re.search(r"\bimpl\s+(?:core::cmp::|cmp::)?PartialEq\b[^{]*\bfor\s+%s\b" % re.escape(name), src):
+        raise GenError("enum %s has a hand-written PartialEq" % name)
+    body = re.sub(r"///[^\n]*|//[^\n]*|#\[[^\]]*\]", "", m.group(2))
+    out = []
+    for part in body.split(","):
+        part = part.strip()
+        if not part:
+            continue
+        if not re.match(r"^[A-Z][A-Za-z0-9]*$", part):
+            raise GenError("enum %s: variant %r carries data or a discriminant (outside the fragment)" % (name, part))
+        out.append(part)
+    return out
+
+
+def use_table(src):
+    """name -> module path for the flat `use a::b::{x, y};` / `use a::b::x;` items of a file"""
+    out = {}
+    for m in re.finditer(r"\nuse\s+([A-Za-z_][\w:]*)::\{([^{}]*)\};", src):
+        for n in m.group(2).split(","):
+            n = n.strip()
+            if re.match(r"^\w+$", n):
+                out[n] = m.group(1)
+    for m in re.finditer(r"\nuse\s+([A-Za-z_][\w:]*)::(\w+);", src):
+        out[m.group(2)] = m.group(1)
+    return out
+
+
+class GenR(Gen):
+    """Code generator for functions whose parameters are structs (Gallina records generated from the struct
+    declarations) and whose `Result<(), ValidationError>` keeps the tag of the error (Base/Rust.v: result, bindR).
+    It shares the expression translation of integers with Gen; every statement form is handled here, and a form
+    that is not listed is an error."""
+
+    def __init__(self, structs, enums, methods, consts, ext_fns, opaque, validator, policy_struct, known):
+        Gen.__init__(self, None, [], {})
+        self.structs = structs            # name -> [(field, type)]
+        self.enums = enums                # name -> [variant]
+        self.methods2 = methods           # (owner, name) -> parsed fn
+        self.consts = consts              # NAME -> (type, value)
+        self.ext_fns = ext_fns            # name -> (qualified Gallina name, parsed fn)
+        self.opaque = opaque              # [(ast, {var: type}, parameter name, type)]
+        self.validator = validator
+        self.policy_struct = policy_struct
+        self.known = known
+        self.sig_opaque = {}              # (owner, name) -> opaque parameters of a translated method
+        self.pure = 0
+
+    def coq_type(self, t):
+        if t in WIDTH or t == "id":
+            return "N"
+        if t in ("bool", "unit"):
+            return t
+        if t == "str":
+            return "string"
+        if t in ("opt_id", "opt_u64", "opt_u32"):
+            return "option N"
+        if t == "vec":
+            return "list N"
+        if t.startswith("struct:") or t.startswith("enum:"):
+            return t.split(":", 1)[1]
+        if t.startswith("vec:"):
+            return "list %s" % t[4:]
+        if t.startswith("tuple:"):
+            return "(%s)" % " * ".join(self.coq_type(x) for x in t[6:].split(","))
+        if t == "result_unit":
+            return "(result unit)"
+        raise GenError("type %s has no Gallina rendering" % t)
+
+    def binder(self, x, code=None, env=None):
+        if (x in RESERVED and not (x == "policy" and code == "policy")) or re.match(r"^(t\d+|gen_.*|mk_.*)$", x) \
+                or any(x == pn for _, _, pn, _ in self.opaque):
+            raise GenError("the name %s is used by the generated text itself: binding it is outside the fragment" % x)
+        if not re.match(r"^[a-z_][a-z0-9_]*$", x):
+            raise GenError("binder %s is outside the fragment" % x)
+        if env is not None and x in env and x != "_":
+            # a block's own binding would otherwise be what a loop hands on after the block has ended
+            raise GenError("`let %s` shadows a variable in scope: outside the fragment" % x)
+        return x
+
+    def tagged(self):
+        return self.cur["ret"] == "result_unit"
+
+    # ---- expressions
+    def expr(self, e, env, want=None):
+        k = e[0]
+        if k == "str":
+            body = e[1][1:-1]
+            if "\\" in body or '"' in body:
+                raise GenError("string literal %s with an escape is outside the fragment" % e[1])
+            return [], '"%s"%%string' % body, "str"
+        if k == "ref":
+            return self.expr(e[1], env, want)
+        if k == "var":
+            x = e[1]
+            if x in env:
+                return [], x, env[x]
+            if "::" in x and x.split("::")[0] in self.enums:
+                en, v = x.split("::")
+                if v not in self.enums[en]:
+                    raise GenError("%s is not a variant of %s" % (v, en))
+                return [], "%s_%s" % (en, v), "enum:" + en
+            if x in self.consts:
+                return [], "%d" % self.consts[x][1], self.consts[x][0]
+            if x in ("u32::MAX", "u64::MAX", "usize::MAX"):
+                return Gen.expr(self, e, env, want)
+            raise GenError("unknown variable %s" % x)
+        if k == "field":
+            if e[1] == ("var", "self") and self.owner == self.validator:
+                if e[2] != "policy":
+                    raise GenError("self.%s of the validator is outside the fragment" % e[2])
+                return [], "policy", "struct:" + self.policy_struct
+            b, c, t = self.expr(e[1], env)
+            if not t.startswith("struct:"):
+                raise GenError("field .%s of a %s is outside the fragment" % (e[2], t))
+            sn = t[7:]
+            ft = dict(self.structs[sn]).get(e[2])
+            if ft is None:
+                raise GenError("%s.%s: no such field, or its type is outside the fragment" % (sn, e[2]))
+            return b, "(%s_%s %s)" % (sn, e[2], c), ft
+        if k == "tuple":
+            bs, cs, ts = [], [], []
+            for x in e[1]:
+                b, c, t = self.expr(x, env)
+                bs += b
+                cs.append(c)
+                ts.append(t)
+            return bs, "(%s)" % ", ".join(cs), "tuple:" + ",".join(ts)
+        if k == "as":
+            b, c, t = self.expr(e[1], env)
+            if t not in WIDTH or e[2] not in WIDTH:
+                raise GenError("cast from %s to %s is outside the fragment" % (t, e[2]))
+            if WIDTH[e[2]] < WIDTH[t]:
+                raise GenError("narrowing cast from %s to %s is outside the fragment" % (t, e[2]))
+            return b, c, e[2]                     # a widening cast (usize = u64): the identity on the value
+        if k == "call":
+            for ast, vars_, pname, pty in self.opaque:
+                if e == ast:
+                    for v, vt in vars_.items():
+                        if env.get(v) != vt or v in self.rebound:
+                            raise GenError("%s: %s is not the parameter of type %s here" % (pname, v, vt))
+                    if (pname, pty) not in self.opaque_used:
+                        self.opaque_used.append((pname, pty))
+                    return [], pname, pty
+            if e[1] in self.ext_fns:
+                qual, m2 = self.ext_fns[e[1]]
+                bs, cs = self.call_args(e[1], e[2], m2, env)
+                x = self.fresh()
+                return bs + [(x, "%s prof %s" % (qual, " ".join(cs)))], x, m2["ret"]
+            if e[1] == "Ok" and e[2] == [("unit",)]:
+                if not self.tagged():
+                    raise GenError("Ok(()) in a function that does not return Result<(), _>")
+                return [], "(OkR tt)", "result_unit"
+            if e[1] in ("min", "max"):
+                return Gen.expr(self, e, env, want)
+            raise GenError("call of %s is outside the fragment" % e[1])
+        if k == "mcall":
+            recv, name, args = e[1], e[2], e[3]
+            if name == "len" and not args:
+                b, v, tv = self.expr(recv, env)
+                if not tv.startswith("vec:"):
+                    raise GenError("len of a %s" % tv)
+                return b, "(len_of %s)" % v, "usize"
+            if not (recv == ("var", "self") and self.owner == self.validator):
+                b, v, tv = self.expr(recv, env)
+                if tv.startswith("struct:") and (tv[7:], name) in self.methods2:
+                    m2 = self.methods2[(tv[7:], name)]
+                    if m2["ret"] == "result_unit":
+                        raise GenError("a Result of .%s(..) that is not followed by `?` is outside the fragment" % name)
+                    bs, cs = self.call_args(name, args, m2, env)
+                    extra = self.pass_opaque((tv[7:], name))
+                    x = self.fresh()
+                    return b + bs + [(x, " ".join(["gen_%s_%s prof" % (tv[7:], name)] + extra + [v] + cs))], x, m2["ret"]
+            raise GenError("method call .%s(..) is outside the fragment" % name)
+        if k == "try":
+            return self.try_expr(e[1], env)
+        if k == "bin" and e[1] in ("==", "!="):
+            save = self.tmp
+            b1, a, ta = self.expr(e[2], env)
+            if ta.startswith("enum:"):
+                b2, c, tc = self.expr(e[3], env)
+                if tc != ta:
+                    raise GenError("%s between %s and %s" % (e[1], ta, tc))
+                code = "(%s_eqb %s %s)" % (ta[5:], a, c)
+                return b1 + b2, code if e[1] == "==" else "(negb %s)" % code, "bool"
+            self.tmp = save
+            return Gen.expr(self, e, env, want)
+        if k in ("lit", "bool", "deref", "if", "bin"):
+            return Gen.expr(self, e, env, want)
+        raise GenError("expression %r is outside the fragment" % (e,))
+
+    def call_args(self, name, args, m2, env):
+        if m2["selfmode"] == "mut":
+            raise GenError("call of %s, which takes &mut self, is outside the fragment" % name)
+        if len(args) != len(m2["params"]):
+            raise GenError("call of %s with %d arguments" % (name, len(args)))
+        bs, cs = [], []
+        for a_, (pn, pt) in zip(args, m2["params"]):
+            b_, c_, t_ = self.expr(a_, env, pt)
+            if t_ != pt:
+                raise GenError("argument %s of %s: %s given, %s expected" % (pn, name, t_, pt))
+            bs += b_
+            cs.append(c_)
+        return bs, cs
+
+    def pass_opaque(self, key):
+        """the opaque parameters of a translated callee are handed on under the same names"""
+        if key not in self.sig_opaque:
+            raise GenError("%s is called before it is translated" % (key,))
+        out = []
+        for pname, pty in self.sig_opaque[key]:
+            if (pname, pty) not in self.opaque_used:
+                self.opaque_used.append((pname, pty))
+            out.append(pname)
+        return out
+
+    def message_ok(self, msg, env):
+        """an error message: evaluated only when the error is built, so it must not be able to panic"""
+        if msg[0] == "str":
+            return
+        if msg[0] == "mcall" and msg[1][0] == "str" and msg[2] == "to_string" and not msg[3]:
+            return
+        if msg[0] == "macro" and msg[1] == "format":
+            if self.fmt_arg_binds(msg[2], env):
+                raise GenError("an error message whose arguments can panic is outside the fragment")
+            return
+        raise GenError("error message %r is outside the fragment" % (msg,))
+
+    def tag_code(self, ex, env):
+        b, c, t = self.expr(ex, env)
+        if t != "str" or b:
+            raise GenError("a policy tag must be a string literal or a &str variable")
+        return c
+
+    def try_expr(self, inner, env):
+        """`e?` for the forms of e that are inside the fragment"""
+        if self.pure:
+            raise GenError("`?` inside a block used as a value is outside the fragment")
+        if not self.tagged():
+            raise GenError("`?` in a function that does not return Result<(), _>")
+        if inner[0] == "mcall" and inner[2] == "map_err":
+            # .map_err(|ve| ve.prepend_msg(<message>)) : prepend_msg keeps the tag (checked in policy/error.rs)
+            a = inner[3]
+            if not (len(a) == 1 and a[0][0] == "closure" and len(a[0][1]) == 1 and a[0][2][0] == "mcall"
+                    and a[0][2][1] == ("var", a[0][1][0]) and a[0][2][2] == "prepend_msg" and len(a[0][2][3]) == 1):
+                raise GenError("map_err with anything but |e| e.prepend_msg(..) is outside the fragment")
+            self.message_ok(a[0][2][3][0], env)
+            inner = inner[1]
+            if not (inner[0] == "mcall" and inner[1] == ("var", "self")):
+                raise GenError("map_err on anything but a call of a translated method is outside the fragment")
+        if inner[0] == "mcall" and inner[2] == "ok_or_else" and len(inner[3]) == 1 and inner[1][0] == "mcall" \
+                and inner[1][2] in ("checked_add", "checked_sub", "checked_mul") and len(inner[1][3]) == 1:
+            clo = inner[3][0]
+            if not (clo[0] == "closure" and not clo[1]):
+                raise GenError("ok_or_else needs a closure without parameters")
+            body = clo[2]
+            if body[0] == "block" and not body[1] and body[2] is not None:
+                body = body[2]
+            if not (body[0] == "call" and body[1] == "policy_error" and len(body[2]) == 2):
+                raise GenError("ok_or_else(|| ..) with anything but policy_error(tag, message) is outside the fragment")
+            tag = self.tag_code(body[2][0], env)
+            self.message_ok(body[2][1], env)
+            b1, a, ta = self.expr(inner[1][1], env)
+            b2, c, tc = self.expr(inner[1][3][0], env, ta)
+            if ta != "u64" or tc != "u64":
+                raise GenError("%s on %s and %s" % (inner[1][2], ta, tc))
+            fn = {"checked_add": "add_checked", "checked_sub": "sub_checked", "checked_mul": "mul_checked"}[inner[1][2]]
+            x = self.fresh()
+            return b1 + b2 + [(x, "ok_or (%s %s %s) %s" % (fn, a, c, tag), "tryR")], x, "u64"
+        if inner[0] == "mcall" and inner[1] == ("var", "self") and self.owner == self.validator \
+                and (self.validator, inner[2]) in self.methods2:
+            m2 = self.methods2[(self.validator, inner[2])]
+            if m2["ret"] != "result_unit":
+                raise GenError("`?` on %s, which does not return Result<(), _>" % inner[2])
+            bs, cs = self.call_args(inner[2], inner[3], m2, env)
+            extra = self.pass_opaque((self.validator, inner[2]))
+            x = self.fresh()
+            return bs + [(x, " ".join(["gen_%s prof warn policy" % inner[2]] + extra + cs), "tryR")], x, "unit"
+        raise GenError("`?` on %r is outside the fragment" % (inner,))
+
+    def emit_binds(self, binds, k):
+        for b in reversed(binds):
+            if len(b) > 2 and b[2] == "tryR":
+                k = "%s <-? %s ;;\n%s" % (b[0], b[1], k)
+            elif len(b) > 2:
+                raise GenError("bind of kind %s is outside the fragment" % b[2])
+            else:
+                k = "%s <- %s ;;\n%s" % (b[0], b[1], k)
+        return k
+
+    def value_block(self, blk, env, want=None):
+        self.pure += 1
+        try:
+            return Gen.value_block(self, blk, env, want)
+        finally:
+            self.pure -= 1
+
+    def assigned2(self, stmts):
+        out = []
+        for s in stmts:
+            if s[0] == "assign":
+                tgt = s[1]
+                if tgt[0] == "deref" and tgt[1][0] == "var" and tgt[1][1] in self.guards:
+                    continue
+                if tgt[0] != "var":
+                    raise GenError("assignment target %r is outside the fragment" % (tgt,))
+                out.append(tgt[1])
+            elif s[0] in ("if_stmt",):
+                out += self.assigned2(s[2][0])
+            elif s[0] == "ifelse_stmt":
+                out += self.assigned2(s[2][0]) + self.assigned2(s[3][0])
+            elif s[0] == "for_iter":
+                out += self.assigned2(s[3])
+            elif s[0] == "for_range":
+                out += self.assigned2(s[4])
+            elif s[0] == "iflet_stmt":
+                out += self.assigned2(s[3][0])
+        seen = []
+        for x in out:
+            if x not in seen:
+                seen.append(x)
+        return seen
+
+    # ---- statements
+    def stmts(self, ss, env, k):
+        if not ss:
+            return k(env)
+        s, rest = ss[0], ss[1:]
+        kind = s[0]
+        if kind == "let":
+            x, ty, e = s[1], s[2], s[3]
+            if e[0] == "macro" and e[1] == "scoped_debug_return":
+                # a guard that logs its arguments when the function is left while it is armed: no effect on the answer
+                if not isinstance(x, str):
+                    raise GenError("a debugging guard bound to a pattern is outside the fragment")
+                self.guards.add(x)
+                return self.stmts(rest, {a: b for a, b in env.items() if a != x}, k)
+            if not isinstance(x, str):
+                b, c, t = self.expr(e, env)
+                parts = t[6:].split(",") if t.startswith("tuple:") else []
+                if len(parts) != len(x[1]) or ty is not None:
+                    raise GenError("let %r = a value of type %s is outside the fragment" % (x[1], t))
+                env2 = dict(env)
+                for n_, t_ in zip(x[1], parts):
+                    env2[self.binder(n_, env=env)] = t_
+                    self.rebound.add(n_)
+                return self.emit_binds(b, "let '(%s) := %s in\n%s" % (", ".join(x[1]), c, self.stmts(rest, env2, k)))
+            b, c, t = self.expr(e, env, ty)
+            if ty and ty != t:
+                raise GenError("let %s: declared %s, expression has %s" % (x, ty, t))
+            if t == "result_unit":
+                raise GenError("binding a Result is outside the fragment")
+            self.binder(x, c, env=env)
+            self.rebound.add(x)
+            env2 = dict(env)
+            env2[x] = t
+            return self.emit_binds(b, "let %s := %s in\n%s" % (x, c, self.stmts(rest, env2, k)))
+        if kind == "assign":
+            tgt, rhs = s[1], s[2]
+            if tgt[0] == "deref" and tgt[1][0] == "var" and tgt[1][1] in self.guards:
+                if rhs[0] != "bool":
+                    raise GenError("a debugging guard is only armed or disarmed with a literal")
+                return self.stmts(rest, env, k)
+            if tgt[0] == "var":
+                if tgt[1] not in env:
+                    raise GenError("assignment to unknown variable %s" % tgt[1])
+                b, c, t = self.expr(rhs, env, env[tgt[1]])
+                if t != env[tgt[1]]:
+                    raise GenError("%s: %s assigned a %s" % (tgt[1], env[tgt[1]], t))
+                return self.emit_binds(b, "let %s := %s in\n%s" % (tgt[1], c, self.stmts(rest, env, k)))
+            raise GenError("assignment target %r is outside the fragment" % (tgt,))
+        if kind == "expr":
+            e = s[1]
+            if e[0] == "macro" and e[1] in ("debug", "trace", "info", "warn"):
+                return self.stmts(rest, env, k)      # logging: no effect on the state; arguments not evaluated
+            if e[0] == "macro" and e[1] == "policy_err":
+                args = e[2]
+                if not self.tagged() or self.pure:
+                    raise GenError("policy_err! outside the body of a function that returns Result<(), _>")
+                if len(args) < 3 or args[0] != [("id", "self")] or self.owner != self.validator:
+                    raise GenError("policy_err! needs (self, tag, format string, ..) in a method of the validator")
+                pp = P(list(args[1]) + [("eof", "")], self.known)
+                tagex = pp.expr()
+                if pp.peek()[0] != "eof":
+                    raise GenError("policy tag %r is outside the fragment" % (args[1],))
+                tag = self.tag_code(tagex, env)
+                fb = self.fmt_arg_binds(args[2:], env)       # the message is formatted before the filter is asked
+                x = self.fresh()
+                return self.emit_binds(fb, "%s <-? policy_err warn %s ;;\n%s" % (x, tag, self.stmts(rest, env, k)))
+            if e[0] == "try":
+                b, c, t = self.expr(e, env)
+                return self.emit_binds(b, self.stmts(rest, env, k))
+            raise GenError("statement %r is outside the fragment" % (e,))
+        if kind == "if_stmt":
+            if self.assigned2(s[2][0]):
+                raise GenError("an `if` block that assigns a variable of the enclosing block is outside the fragment")
+            if not self.tagged() or self.pure:
+                raise GenError("an `if` statement outside the body of a function that returns Result<(), _>")
+            b, c, t = self.expr(s[1], env)
+            if t != "bool":
+                raise GenError("if on a non-boolean")
+            inside = self.stmts(s[2][0], env, lambda e2: "Val (OkR tt)")
+            x = self.fresh()
+            return self.emit_binds(b, "%s <-? (if %s\nthen (%s)\nelse Val (OkR tt)) ;;\n%s" % (
+                x, c, inside, self.stmts(rest, env, k)))
+        if kind == "for_iter":
+            var, it, body = s[1], s[2], s[3]
+            if not self.tagged() or self.pure:
+                raise GenError("a loop outside the body of a function that returns Result<(), _>")
+            if it[0] == "ref":
+                seq = it[1]
+            elif it[0] == "mcall" and it[2] == "iter" and not it[3]:
+                seq = it[1]
+            else:
+                raise GenError("only `for x in &v` / `for x in v.iter()` are inside the fragment")
+            b, v, tv = self.expr(seq, env)
+            if not tv.startswith("vec:"):
+                raise GenError("a loop over a %s is outside the fragment" % tv)
+            carried = self.assigned2(body)
+            if len(carried) != 1 or carried[0] not in env:
+                raise GenError("a loop that does not assign exactly one variable of the enclosing block is outside the fragment")
+            env_b = dict(env)
+            env_b[self.binder(var, env=env)] = "struct:" + tv[4:]
+            self.rebound.add(var)
+            inner = self.stmts(body, env_b, lambda e2: "Val (OkR %s)" % carried[0])
+            loop = "fold_r (fun %s %s =>\n%s) %s %s" % (carried[0], var, inner, v, carried[0])
+            return self.emit_binds(b, "%s <-? %s ;;\n%s" % (carried[0], loop, self.stmts(rest, env, k)))
+        raise GenError("statement %r is outside the fragment" % (s,))
+
+    def block_value(self, blk, env, m):
+        ss, tail = blk
+
+        def k(env2):
+            if tail is None:
+                raise GenError("fn %s: block without a value" % m["name"])
+            if tail[0] == "if":
+                b, c, t = self.expr(tail[1], env2)
+                if t != "bool":
+                    raise GenError("if on a non-boolean")
+                return self.emit_binds(b, "if %s\nthen (%s)\nelse (%s)" % (
+                    c, self.block_value(tail[2], env2, m), self.block_value(tail[3], env2, m)))
+            b, c, t = self.expr(tail, env2, m["ret"])
+            if t != m["ret"]:
+                raise GenError("fn %s returns %s, tail expression has %s" % (m["name"], m["ret"], t))
+            return self.emit_binds(b, "Val %s" % c)
+        return self.stmts(ss, env, k)
+
+    def method2(self, owner, m):
+        self.cur, self.owner = m, owner
+        self.tmp, self.pure = 0, 0
+        self.opaque_used, self.guards, self.rebound = [], set(), set()
+        if m["selfmode"] != "ref":
+            raise GenError("fn %s: only `&self` methods are inside the fragment" % m["name"])
+        env = {}
+        for x, t in m["params"]:
+            env[self.binder(x)] = t
+        if owner == self.validator:
+            head = ["(prof : profile)", "(warn : string -> bool)", "(policy : %s)" % self.policy_struct]
+            name = "gen_%s" % m["name"]
+        else:
+            env["self"] = "struct:" + owner
+            head = ["(prof : profile)"]
+            name = "gen_%s_%s" % (owner, m["name"])
+        body = self.block_value(m["body"], env, m)
+        self.sig_opaque[(owner, m["name"])] = list(self.opaque_used)
+        head += ["(%s : %s)" % (pn, self.coq_type(pt)) for pn, pt in self.opaque_used]
+        if owner != self.validator:
+            head.append("(self : %s)" % owner)
+        head += ["(%s : %s)" % (x, self.coq_type(t)) for x, t in m["params"]]
+        return "Definition %s %s : trap %s :=\n%s." % (name, " ".join(head), self.coq_type(m["ret"]), indent(body))
+
+
+def check_error_helpers(core):
+    """what the translation relies on about policy/error.rs: policy_error(tag, ..) builds an error with that tag,
+    prepend_msg keeps the tag, policy_err! is `policy_error(tag, ..)?` on the policy object"""
+    src = re.sub(r"\s+", " ", open(os.path.join(core, "policy", "error.rs")).read())
+    m = re.search(r"fn policy_error\(tag: impl Into<String>, msg: impl Into<String>\) -> ValidationError \{ "
+                  r"ValidationError \{ tag: tag\.into\(\), kind: Policy\(msg\.into\(\)\),", src)
+    if not m:
+        raise GenError("policy/error.rs: policy_error no longer builds ValidationError { tag: tag.into(), kind: Policy(..) }")
+    m = re.search(r"fn prepend_msg\(self, premsg: String\) -> ValidationError \{(.*?)\} \}", src)
+    if not m or "ValidationError { tag: self.tag," not in m.group(1):
+        raise GenError("policy/error.rs: prepend_msg no longer keeps the tag")
+    m = re.search(r"macro_rules! policy_err \{ \(\$obj:expr, \$tag:tt, \$\(\$arg:tt\)\*\) => \( "
+                  r"\$obj\.policy\(\)\.policy_error\(\$tag\.into\(\), format!\( \"\{\}: \{\}\", short_function!\(\), "
+                  r"format!\(\$\(\$arg\)\*\) \)\)\? \) \}", src)
+    if not m:
+        raise GenError("policy/error.rs: policy_err! is no longer `$obj.policy().policy_error($tag.into(), format!(..))?`")
+
+
+def generate_commitment_policy(repo):
+    try:
+        return _generate_commitment_policy(repo)
+    except (IndexError, KeyError, ValueError, TypeError, AttributeError, RecursionError, OSError) as e:
+        # a source shape the reader did not foresee is a construct outside the fragment, not a crash
+        raise GenError("the source could not be read (%s: %s)" % (type(e).__name__, e))
+
+
+def _generate_commitment_policy(repo):
+    core = os.path.join(repo, "vls-core", "src")
+    rd = lambda *p: open(os.path.join(core, *p)).read()
+    sv, ch, tx, va, pm, tu = (rd("policy", "simple_validator.rs"), rd("channel.rs"), rd("tx", "tx.rs"),
+                              rd("policy", "validator.rs"), rd("policy", "mod.rs"), rd("util", "transaction_utils.rs"))
+    check_error_helpers(core)
+    # where simple_validator.rs takes the names from that the translated functions use
+    uses = use_table(sv)
+    expect = {"ChannelSetup": "crate::channel", "CommitmentType": "crate::channel", "CommitmentInfo2": "crate::tx::tx",
+              "ChainState": "super::validator", "EnforcementState": "super::validator", "MAX_CLTV_EXPIRY": "super",
+              "MIN_CHAN_DUST_LIMIT_SATOSHIS": "crate::util::transaction_utils",
+              "MIN_DUST_LIMIT_SATOSHIS": "crate::util::transaction_utils",
+              "estimate_feerate_per_kw": "crate::util::transaction_utils",
+              "expected_commitment_tx_weight": "crate::util::transaction_utils",
+              "htlc_success_tx_weight": "lightning::ln::chan_utils", "htlc_timeout_tx_weight": "lightning::ln::chan_utils",
+              "policy_error": "super::error"}
+    for n, mod in expect.items():
+        if uses.get(n) != mod:
+            raise GenError("simple_validator.rs: %s is expected from %s, found %s" % (n, mod, uses.get(n)))
+    for n in ("MAX_CLTV_EXPIRY", "MIN_CHAN_DUST_LIMIT_SATOSHIS", "MIN_DUST_LIMIT_SATOSHIS"):
+        if re.search(r"\bconst\s+%s\b" % n, sv):
+            raise GenError("simple_validator.rs declares its own %s" % n)
+    known = {"CommitmentType": "enum:CommitmentType", "HTLCInfo2": "struct:HTLCInfo2",
+             "CommitmentInfo2": "struct:CommitmentInfo2", "ChannelSetup": "struct:ChannelSetup",
+             "ChainState": "struct:ChainState", "SimplePolicy": "struct:SimplePolicy"}
+    enums = {"CommitmentType": enum_variants(ch, "CommitmentType")}
+    struct_src = [("HTLCInfo2", tx, "tx/tx.rs"), ("CommitmentInfo2", tx, "tx/tx.rs"), ("ChannelSetup", ch, "channel.rs"),
+                  ("ChainState", va, "policy/validator.rs"), ("SimplePolicy", sv, "policy/simple_validator.rs")]
+    structs = {n: struct_fields(src, n, skip_unknown=True, known=known) for n, src, _ in struct_src}
+    consts = {}
+    for n, (src, where) in {"MAX_CLTV_EXPIRY": (pm, "policy/mod.rs"), "MIN_CHAN_DUST_LIMIT_SATOSHIS": (tu, "util/transaction_utils.rs"),
+                            "MIN_DUST_LIMIT_SATOSHIS": (tu, "util/transaction_utils.rs")}.items():
+        tab = const_table(src)
+        if n not in tab:
+            raise GenError("constant %s not found in %s" % (n, where))
+        consts[n] = tab[n]
+    ext = {}
+    for n in ("estimate_feerate_per_kw", "expected_commitment_tx_weight"):
+        ext[n] = ("TxUtilGen.gen_" + n, P(lex(free_fn_source(tu, n))).fn())
+    plan = [("ChannelSetup", "is_anchors", ch, "channel.rs"), ("ChannelSetup", "is_zero_fee_htlc", ch, "channel.rs"),
+            ("CommitmentInfo2", "value_to_parties", tx, "tx/tx.rs"),
+            ("SimpleValidator", "validate_expiry", sv, "policy/simple_validator.rs"),
+            ("SimpleValidator", "validate_fee", sv, "policy/simple_validator.rs"),
+            ("SimpleValidator", "validate_commitment_tx", sv, "policy/simple_validator.rs")]
+    methods, texts = {}, {}
+    for owner, n, src, _ in plan:
+        texts[(owner, n)] = method_source(src, owner, n)
+        methods[(owner, n)] = P(lex(texts[(owner, n)]), known).fn()
+    # answers of LDK functions on the channel type: parameters of the translation
+    feat = ("ref", ("mcall", ("var", "setup"), "features", []))
+    opaque = [(("call", "htlc_timeout_tx_weight", [feat]), {"setup": "struct:ChannelSetup"}, "htlc_timeout_tx_weight_of_setup", "u64"),
+              (("call", "htlc_success_tx_weight", [feat]), {"setup": "struct:ChannelSetup"}, "htlc_success_tx_weight_of_setup", "u64")]
+    g = GenR(structs, enums, methods, consts, ext, opaque, "SimpleValidator", "SimplePolicy", known)
+    out = []
+    for en, vs in enums.items():
+        out.append("(* enum %s (channel.rs; `==` is the derived PartialEq: equality of variants) *)\n"
+                   "Inductive %s := %s.\n"
+                   "Definition %s_eqb (a b : %s) : bool :=\n  match a, b with\n%s\n  | _, _ => false\n  end." % (
+                       en, en, " | ".join("%s_%s" % (en, v) for v in vs), en, en,
+                       "\n".join("  | %s_%s, %s_%s => true" % (en, v, en, v) for v in vs)))
+    for n, _, where in struct_src:
+        out.append("(* struct %s (%s): the fields whose types are inside the fragment; keys, scripts, hashes and other\n"
+                   "   foreign values are opaque identities *)\nRecord %s := mk_%s {\n%s\n}." % (
+                       n, where, n, n, ";\n".join("  %s_%s : %s" % (n, f, g.coq_type(t)) for f, t in structs[n])))
+    for owner, n, _, where in plan:
+        out.append("(* %s::%s (%s)\n%s *)\n%s" % (owner, n, where, "\n".join(
+            "   " + l for l in texts[(owner, n)].strip().replace("(*", "( *").replace("*)", "* )").splitlines()),
+            g.method2(owner, methods[(owner, n)])))
+    text = ("(** GENERATED by tools/gen_rustfn.py - do not edit.  Statement-by-statement translation of\n"
+            "      SimpleValidator::validate_expiry, ::validate_fee, ::validate_commitment_tx (policy/simple_validator.rs),\n"
+            "      ChannelSetup::is_anchors, ::is_zero_fee_htlc (channel.rs), CommitmentInfo2::value_to_parties (tx/tx.rs)\n"
+            "    with the struct and enum declarations they read and the constants %s.\n"
+            "    estimate_feerate_per_kw and expected_commitment_tx_weight are the translations of Gen/TxUtilGen.v.\n"
+            "    The meaning of every construct is in Base/Rust.v; Result<(), ValidationError> is [result unit] (the error\n"
+            "    keeps its policy tag), `policy_err!(self, tag, ..)` asks the policy filter [warn].  The answers of LDK's\n"
+            "    htlc_timeout_tx_weight / htlc_success_tx_weight on `&setup.features()` are parameters. *)\n"
+            "From Coq Require Import String.\nFrom VLS Require Export Base.Rust.\nFrom VLS Require Gen.TxUtilGen.\n\n" % ", ".join(
+                "%s = %d" % (n, consts[n][1]) for n in sorted(consts))
+            + "\n\n".join(out) + "\n")
+    outp = os.path.join(ROOT, "coq", "theories", "Gen", "CommitmentPolicyGen.v")
+    if not os.path.exists(outp) or open(outp).read() != text:
+        open(outp, "w").write(text)
+    return {"translated": ["%s::%s" % (o, n) for o, n, _, _ in plan], "structs": {n: [f for f, _ in structs[n]] for n in structs},
+            "enums": enums, "constants": {n: consts[n][1] for n in consts},
+            "parameters": [p for _, _, p, _ in opaque] + ["warn (the policy filter)"]}
+
+
 if __name__ == "__main__":
     repo = sys.argv[1] if len(sys.argv) > 1 else "/repo"
     print(generate_velocity(repo))
@@ -1138,3 +1934,4 @@ if __name__ == "__main__":
     print(generate_enforcement(repo))
     print(generate_monitor(repo))
     print(generate_txutil(repo))
+    print(generate_commitment_policy(repo))
